@@ -540,6 +540,33 @@ func (c *Ctx) ruleB1() {
 					asserts = append(asserts, ta)
 				}
 			})
+			// the subscription handed to a helper that takes further events from it and hands one
+			// back (draining a burst, coalescing): what comes back is another event of the shared
+			// bus and needs its own address comparison
+			eachCall(consumer, func(call ssa.CallInstruction) {
+				h := call.Common().StaticCallee()
+				if h == nil || h.Blocks == nil || h.Pkg == nil || !inRepo(h.Pkg.Pkg) || call.Value() == nil {
+					return
+				}
+				givesSub := false
+				for _, a := range call.Common().Args {
+					if strings.HasSuffix(typeStr(a.Type()), "event.Subscription") {
+						givesSub = true
+					}
+				}
+				if !givesSub || !types.Identical(call.Value().Type(), t) {
+					return
+				}
+				takes := false
+				eachCall(h, func(hc ssa.CallInstruction) {
+					if methodName(hc) == "Out" {
+						takes = true
+					}
+				})
+				if takes {
+					asserts = append(asserts, call)
+				}
+			})
 			if len(asserts) == 0 {
 				// a type switch that handles the type without binding it: use the first instruction after Out()
 				eachCall(consumer, func(call ssa.CallInstruction) {
